@@ -292,7 +292,7 @@ class Sim:
                         self.shadow[t]["tx"] = int(w[3]) * 1000
                 except ValueError:
                     pass
-        return dict(e="cmd", t=t + 1, raw=list(raw), rport=remote[1], exc=exc, outs=outs,
+        return dict(e="cmd", t=t + 1, raw=list(raw), rport=remote[1], rhost=remote[0], exc=exc, outs=outs,
                     slept=[int(round(s * 1000)) for s in self.time.slept])
 
     def data(self, t, raw, remote=None):
